@@ -2,6 +2,7 @@
 pub mod big;
 pub mod exec;
 pub mod fgen;
+pub mod fmts;
 pub mod guard;
 pub mod oracle;
 pub mod report;
